@@ -30,7 +30,7 @@ ANCHORS = [
 ]
 REQUIRED_ANCHORS = ANCHORS
 ITERABLES = ("list", "tuple", "set", "frozenset", "keys", "generator", "iterator")
-REQUIRED = ["subgraphs", "composes", "component_checks", "recompose_components", "cut_descriptor", "cut_change", "with_placeholder"] + [f"iterable:{k}" for k in ITERABLES] + ["cover:components", "cover:partition", "cover:overlap", "scale_cases", "mixed_class_pieces", "conflicting_overlaps", "base_class_compose_of_derived_pieces"]
+REQUIRED = ["subgraphs", "composes", "component_checks", "recompose_components", "cut_descriptor", "cut_change", "with_placeholder"] + [f"iterable:{k}" for k in ITERABLES] + ["cover:components", "cover:partition", "cover:overlap", "scale_cases", "mixed_class_pieces", "conflicting_overlaps", "base_class_compose_of_derived_pieces", "dangling_descriptor_fragments", "dangling_full_selection"]
 
 
 def as_iterable(kind, S):
@@ -73,7 +73,61 @@ def gen_cases(ctx):
                 rng.shuffle(S)
             subs.append([kind, S])
         yield {"cls": cls, "pg": pg_to_json(pg), "subsets": subs, "cover": ("components", "partition", "overlap")[(i // 4) % 3], "pseed": rng.randrange(1 << 30), "pieces_as": rng.choice(["list", "tuple", "generator", "iterator"])}
+    # fragments whose descriptors / stereo changes name a ligand that is NOT an atom of the graph (a fragment prepared for
+    # a later compose: the setters only look at the centre). subgraph(S) keeps "precisely those ... all of whose atoms lie
+    # in S" - for S = all atoms too (seeded C17h: "everything selected" fast path returning a copy)
+    for i in range(ctx.n(1600, 16000)):
+        cls = ("StereoMolGraph", "StereoCondensedReactionGraph")[i % 2]
+        pg = gen.random_pg(rng, cls, n_range=(4, 10), alphabet=gen.SMALL, attrs=i % 3 == 0, p_stereo=0.9, p_change=0.5, p_role=0.3, p_none=rng.choice([0, 0.15]))
+        ids = list(pg["atoms"])
+        S0 = rng.sample(ids, rng.randint(2, len(ids) - 1))
+        subs = [[ITERABLES[(i // 2 + k) % len(ITERABLES)], S0[:] if k < 2 else rng.sample(S0, rng.randint(1, len(S0)))] for k in range(3)]
+        yield {"cls": cls, "pg": pg_to_json(pg), "dangling": S0, "subsets": subs, "pseed": rng.randrange(1 << 30)}
     yield from _scale_cases(ctx, rng)
+
+
+def _check_dangling(ctx, case, pg, g, cls):
+    """g.subgraph(S0), with the descriptors / changes that cross the cut put back through the public setters"""
+    from ..snapshot import mk_desc
+
+    S0 = set(case["dangling"])
+    inside = lambda d: all(x in S0 for x in sem.desc_atoms(d))
+    try:
+        f = g.subgraph(list(case["dangling"]))
+        n = 0
+        for a, d in pg["astereo"].items():
+            if a in S0 and not inside(d):
+                f.set_atom_stereo(mk_desc(d)); n += 1
+        for b, d in pg["bstereo"].items():
+            if b <= S0 and not inside(d):
+                f.set_bond_stereo(mk_desc(d)); n += 1
+        for key, setter in (("achange", "set_atom_stereo_change"), ("bchange", "set_bond_stereo_change")):
+            for c, v in pg[key].items():
+                inS = (c in S0) if key == "achange" else (c <= S0)
+                if inS and any(not inside(d) for d in v.values()):
+                    getattr(f, setter)(**{s_.lower(): mk_desc(d) for s_, d in v.items()}); n += 1
+    except Exception as e:  # noqa: BLE001
+        ctx.count(f"harness:dangling-setup-raised:{type(e).__name__}")
+        return
+    if not n:
+        return
+    src = snap(f)
+    ctx.count("dangling_descriptor_fragments")
+    for kind, S in case["subsets"]:
+        want = sem.pg_subgraph(src, set(S))
+        ctx.case((sem.canon_key(pg), len(set(S)), kind, "dangling"), True)
+        ctx.count("subgraphs")
+        if set(S) == S0:
+            ctx.count("dangling_full_selection")
+        try:
+            h = f.subgraph(as_iterable(kind, S))
+        except Exception as e:  # noqa: BLE001
+            ctx.violate(f"C17/subgraph-raises:{type(e).__name__}/{cls}/dangling", f"subgraph({kind} of {len(S)} atoms) raised {e!r}", case)
+            continue
+        _check_graph(ctx, h, want, cls, case, f"subgraph/{cls}/dangling", f"subgraph({kind} {sorted(S, key=repr)[:6]}) of a fragment whose descriptors name absent atoms")
+        if sem.pg_diff(src, snap(f), mode="exact"):
+            ctx.violate(f"C17/subgraph-changes-source/{cls}", "source changed by subgraph (dangling fragment)", case)
+            return
 
 
 def _scale_cases(ctx, rng):
@@ -117,6 +171,9 @@ def check_case(ctx, case):
         ctx.case()
         return
     ctx.count(f"via:{via}")
+    if "dangling" in case:
+        _check_dangling(ctx, case, pg, g, cls)
+        return
     src = snap(g)
     Cls = classes()[cls]
     descs = list(pg["astereo"].values()) + list(pg["bstereo"].values())
